@@ -1224,6 +1224,66 @@ def run_binary(ctx, rep, mdl):
         rep.notes.setdefault("overflow_probes", []).append(dict(header=hd, rc=rc, stderr=" | ".join(msg)[:200]))
 
 
+# ------------------------------------------------------------------ combined diffs: each hunk numbered from its own header
+
+COMBINED_PATH = "zz/merged_file.rs"
+
+
+def combined_case(rng):
+    from .. import machine as M
+    lines, files = M.gen_combined_diff(rng, conflict=True if rng.random() < 0.5 else None)
+    if rng.random() < 0.4 and "++<<<<<<< HEAD" in lines:
+        # conflict at the top of the file: the region is the first thing in its hunk
+        lines = lines[:5] + lines[lines.index("++<<<<<<< HEAD"):]
+    p = files[0]["new"]
+    lines = [l.replace(p, COMBINED_PATH) if i < 4 else l for i, l in enumerate(lines)]
+    if rng.random() < 0.6:
+        pre, _ = M.gen_git_diff(rng, nfiles=1, with_commit=False, kinds=["modified"])
+        lines = pre + lines
+    args = ["--no-gitconfig", "--paging=never", "--line-numbers"] + rng.choice([[], [], ["--side-by-side", "--width", "120"]])
+    return dict(kind="combined-first-number", args=args, input="\n".join(lines) + "\n", start=files[0]["combined_hunk"]["start"])
+
+
+def combined_first_numbers(out):
+    """numbers in the gutter of the first numbered row after the (last) file header naming COMBINED_PATH"""
+    import re
+    rows = [strip_ansi(l) for l in out.split(b"\n")]
+    at = max((i for i, l in enumerate(rows) if COMBINED_PATH in l), default=None)
+    if at is None:
+        return None
+    for l in rows[at + 1:]:
+        m = re.match(r"^ *(\d*) *⋮ *(\d*) *│", l)
+        if m and any(g for g in m.groups()):
+            return [int(g) for g in m.groups() if g]
+        if l.startswith("│"):      # side-by-side: `│ nm │ left panel │ np │ right panel`, an empty cell on an unpaired row
+            cells = re.findall(r"│ *(\d+) *│", l[:8]) + re.findall(r"│ *(\d+) *│", l[40:])
+            if cells:
+                return [int(g) for g in cells]
+    return []
+
+
+def eval_combined(ctx, rep, cases):
+    from ..core import parallel_map
+    outs = parallel_map(lambda c: ctx.run_delta(c["args"], c["input"].encode()), cases)
+    for c, (rc, out, err) in zip(cases, outs):
+        rep.case(key=("combined", tuple(c["args"]), c["input"]), nontrivial=True, sample=dict(level="combined", start=c["start"]))
+        if rc != 0:
+            continue
+        nums = combined_first_numbers(out)
+        first_is_conflict = any(l.startswith("@@@") and c["input"].split("\n")[i + 1].startswith("++<<<<<<<")
+                                for i, l in enumerate(c["input"].split("\n")[:-1]))
+        rep.count("combined:" + ("conflict-first" if first_is_conflict else "line-first"))
+        if nums is None or nums == []:
+            rep.violation("combined:no-numbered-row", f"no numbered row after the file header of {COMBINED_PATH}", c)
+        elif any(n != c["start"] for n in nums):
+            rep.violation("combined:first-number" + (":conflict-first" if first_is_conflict else ""),
+                          f"the first row of the hunk `@@@ -{c['start']},… @@@` is numbered {nums}", c)
+
+
+def run_combined(ctx, rep):
+    eval_combined(ctx, rep, [combined_case(ctx.rng) for _ in range(ctx.n(60, 1500))])
+
+
 # ------------------------------------------------------------------ entry points
 
 def run(ctx, rep):
@@ -1237,7 +1297,7 @@ def run(ctx, rep):
                           "f64 log10 in initialize_hunk modelled as digit count (exact below 10^15)",
                           "grapheme count of format literals modelled as char count (harness sends only such literals)",
                           "wrap row counts and the line alignment are parameters taken from the implementation (wrap_line: C07, edit inference: C06)"]
-    rep.assumptions += ["two-way (unified) diffs; hyperlinks off; stdout is not a terminal (line-fill-method spaces, no odd-width pad column)"]
+    rep.assumptions += ["two-way (unified) diffs (combined diffs: only the first number of the hunk is checked); hyperlinks off; stdout is not a terminal (line-fill-method spaces, no odd-width pad column)"]
     rep.exhaustive = dict(
         sbs_block="every valid line alignment (Delannoy paths) of every subhunk shape m x p, 0<=m,p<=4, m+p>0; rows per line in {1,2,3}: "
                   + ("every vector for m+p<=2, sampled above" if ctx.quick() else "every vector for m+p<=6, 60 sampled vectors per alignment above"),
@@ -1250,6 +1310,7 @@ def run(ctx, rep):
     run_sbs_blocks(ctx, rep, hook, mdl)
     run_blocks(ctx, rep, hook, mdl)
     run_binary(ctx, rep, mdl)
+    run_combined(ctx, rep)
     rep.notes["hook_restarts"] = hook.restarts
 
 
@@ -1265,6 +1326,8 @@ def replay(ctx, rep, obj):
             for h in f["hunks"]:
                 h["truth"] = [tuple(t) for t in h["truth"]]
         eval_binary(ctx, rep, [c], mdl)
+    elif kind == "combined-first-number":
+        eval_combined(ctx, rep, [case])
     elif kind in ("hook-sbs", "hook-blocks", "hook", "hook-machine"):
         hook = ctx.hook()
         reqs = (["cfg " + " ".join(hx(x) for x in case["cfg"])] if "cfg" in case else []) + ([case["req"]] if "req" in case else case.get("reqs", []))
